@@ -470,5 +470,7 @@ def apply(d):
     summary["dropped"] = sorted(drop)
     summary["kept"] = sorted(set(new) - drop)
     if drop:
+        # (kept aside: their promoted constants are referenced from the copies of their bodies)
+        d.setdefault("dropped_fns", []).extend(f for f in d["fns"] if f["path"] in drop)
         d["fns"] = [f for f in d["fns"] if f["path"] not in drop]
     return summary
